@@ -114,7 +114,7 @@ CHECK_DEADLOCK FALSE
 	// (T) visitor logs of the real Walk / Inspect validated against the machine
 	nFiles := 14
 	if !c.Quick() {
-		nFiles = 400
+		nFiles = 160
 	}
 	files := corpus(c, nFiles)
 	r := rand.New(rand.NewSource(c.Seed))
@@ -160,6 +160,9 @@ func c13Record(c *Ctx, f srcFile, r *rand.Rand) (*ndjson, int) {
 		return nil, 0 // decoration failures belong to C01/C15
 	}
 	tree, ids := ExportDst(df)
+	if len(tree.Nodes) > 6000 {
+		return nil, 0 // the trace machine copies O(nodes) per event: very large files are left to the other checks
+	}
 	// reference order: ast.Inspect on the original ast, mapped to dst ids
 	var astorder []int
 	ast.Inspect(af, func(n ast.Node) bool {
